@@ -50,24 +50,11 @@ impl All2All for RecA2A {
 
 // ---------------------------------------------------------------- hashes
 fn bh(id: u64) -> BlockHash {
-    if id == 0 {
-        return GENESIS_BLOCK_HASH;
-    }
-    let mut b = [0u8; 32];
-    b[..8].copy_from_slice(&id.to_le_bytes());
-    b[31] = 0xA5;
-    let h: Hash = wincode::deserialize(&b).expect("32 bytes are a Hash");
-    h.into()
+    // adversarial interning: the blocks s*8+1.. of one slot differ in a single byte (see `ag_harness::advhash`)
+    advhash::block_hash(id)
 }
 fn hid(h: &BlockHash) -> String {
-    let b = wincode::serialize(h).expect("serialize hash");
-    if b.len() == 32 && b.iter().all(|x| *x == 0) {
-        return "0".into();
-    }
-    if b.len() == 32 && b[31] == 0xA5 && b[8..31].iter().all(|x| *x == 0) {
-        return u64::from_le_bytes(b[..8].try_into().unwrap()).to_string();
-    }
-    "?".into()
+    advhash::block_id(h).map(|x| x.to_string()).unwrap_or_else(|| "?".into())
 }
 fn hid_u(h: &BlockHash) -> u64 {
     hid(h).parse().unwrap_or(u64::MAX)
